@@ -1,11 +1,24 @@
-//! Deterministic parallel-for over run indices.  Workers only partition the index range
-//! (index i goes to worker i mod W in blocks); every run is a pure function of its own seed,
-//! and the per-worker accumulators are merged in worker order with order-independent
-//! operations (sums, set unions, "violation with the smallest run index wins"), so the result
-//! does not depend on the worker count or on thread timing.
+//! Deterministic parallel-for over run indices, with containment for code under test that
+//! hangs or kills the process.
+//!
+//! Workers only partition the index range; every run is a pure function of its own seed, and
+//! the per-worker accumulators are merged with order-independent operations (sums, set unions,
+//! "violation with the smallest run index wins"), so the result does not depend on the worker
+//! count or on thread timing.
+//!
+//! Containment (never part of a simulation decision):
+//! * a watchdog thread notices a run that has been executing for longer than
+//!   `VERIF_HANG_SECS` (default 30) wall-clock seconds, prints `SIM-HANG index=<i>` on stderr
+//!   and exits the process with status 3 — the orchestrator turns that into a replayable
+//!   by-index record;
+//! * with `VERIF_PROGRESS_FILE=<path>` every worker records the index it is about to execute in
+//!   `<path>.<worker>`, so that after an abort (double panic, stack overflow) the orchestrator
+//!   can find the culprit among at most one candidate per worker.
 
-use std::sync::atomic::{AtomicU64, Ordering};
+use std::io::{Seek, SeekFrom, Write};
+use std::sync::atomic::{AtomicBool, AtomicU64, Ordering};
 use std::sync::Arc;
+use std::time::{Duration, Instant};
 
 pub fn workers_from_env() -> usize {
     std::env::var("VERIF_WORKERS")
@@ -15,36 +28,72 @@ pub fn workers_from_env() -> usize {
         .unwrap_or_else(|| std::thread::available_parallelism().map(|n| n.get()).unwrap_or(4).min(16))
 }
 
-/// Runs `body(worker_state, index)` for every index in 0..n.  `make` creates one accumulator per
-/// worker; the accumulators are returned in worker order.  `stop_after` (shared, monotone
-/// decreasing) lets a worker that found a violation at index i tell the others not to
-/// bother with indices above i: all indices below the smallest violating index are still
-/// executed, so the reported first violation is independent of timing.
+pub fn hang_limit() -> Duration {
+    Duration::from_secs(std::env::var("VERIF_HANG_SECS").ok().and_then(|s| s.parse().ok()).unwrap_or(30))
+}
+
+const IDLE: u64 = u64::MAX;
+
+/// Runs `body(worker_state, index, cutoff)` for every index in 0..n.  `make` creates one
+/// accumulator per worker; the accumulators are returned in worker order.  `Cutoff` (shared,
+/// monotone decreasing) lets a worker that found a violation at index i tell the others not to
+/// bother with indices far above i: all indices up to the final cutoff are always executed, so
+/// the reported first violation is independent of timing.
 pub fn par_for<S: Send + 'static>(
     n: u64,
     workers: usize,
     make: impl Fn(usize) -> S + Send + Sync + 'static,
     body: impl Fn(&mut S, u64, &Cutoff) + Send + Sync + 'static,
 ) -> Vec<S> {
+    let workers = workers.max(1);
     let cutoff = Cutoff(Arc::new(AtomicU64::new(u64::MAX)));
     let make = Arc::new(make);
     let body = Arc::new(body);
     const BLOCK: u64 = 64;
     let next = Arc::new(AtomicU64::new(0));
+    let current: Arc<Vec<AtomicU64>> = Arc::new((0..workers).map(|_| AtomicU64::new(IDLE)).collect());
+    let since_ms: Arc<Vec<AtomicU64>> = Arc::new((0..workers).map(|_| AtomicU64::new(0)).collect());
+    let done = Arc::new(AtomicBool::new(false));
+    let t0 = Instant::now();
+    let progress = std::env::var("VERIF_PROGRESS_FILE").ok();
+
+    // watchdog
+    let wd = {
+        let (current, since_ms, done) = (current.clone(), since_ms.clone(), done.clone());
+        let limit = hang_limit();
+        std::thread::spawn(move || {
+            while !done.load(Ordering::Relaxed) {
+                std::thread::sleep(Duration::from_millis(200));
+                let now = t0.elapsed().as_millis() as u64;
+                for w in 0..current.len() {
+                    let idx = current[w].load(Ordering::Relaxed);
+                    let since = since_ms[w].load(Ordering::Relaxed);
+                    if idx != IDLE && now.saturating_sub(since) > limit.as_millis() as u64 && current[w].load(Ordering::Relaxed) == idx {
+                        eprintln!("SIM-HANG index={} (run has been executing for more than {} s)", idx, limit.as_secs());
+                        std::process::exit(3);
+                    }
+                }
+            }
+        })
+    };
+
     let mut handles = Vec::new();
-    for w in 0..workers.max(1) {
+    for w in 0..workers {
         let cutoff = cutoff.clone();
         let make = make.clone();
         let body = body.clone();
         let next = next.clone();
+        let (current, since_ms) = (current.clone(), since_ms.clone());
+        let progress = progress.clone();
         handles.push(
             std::thread::Builder::new()
                 .stack_size(256 << 20)
                 .spawn(move || {
                     let mut st = make(w);
+                    let mut pf = progress.and_then(|p| std::fs::File::create(format!("{}.{}", p, w)).ok());
                     loop {
                         // dynamic block distribution: which worker executes an index varies with
-                        // timing, but results are merged order-independently (see module doc).
+                        // timing, but results are merged order-independently (see module doc)
                         let start = next.fetch_add(BLOCK, Ordering::Relaxed);
                         if start >= n {
                             break;
@@ -53,7 +102,14 @@ pub fn par_for<S: Send + 'static>(
                             if i > cutoff.get() {
                                 break;
                             }
+                            if let Some(f) = pf.as_mut() {
+                                let _ = f.seek(SeekFrom::Start(0));
+                                let _ = f.write_all(format!("{:<20}\n", i).as_bytes());
+                            }
+                            since_ms[w].store(t0.elapsed().as_millis() as u64, Ordering::Relaxed);
+                            current[w].store(i, Ordering::Relaxed);
                             body(&mut st, i, &cutoff);
+                            current[w].store(IDLE, Ordering::Relaxed);
                         }
                     }
                     st
@@ -61,7 +117,10 @@ pub fn par_for<S: Send + 'static>(
                 .expect("spawn worker"),
         );
     }
-    handles.into_iter().map(|h| h.join().expect("worker panicked (harness bug)")).collect()
+    let out: Vec<S> = handles.into_iter().map(|h| h.join().expect("worker panicked (harness bug)")).collect();
+    done.store(true, Ordering::Relaxed);
+    let _ = wd.join();
+    out
 }
 
 #[derive(Clone)]
@@ -71,8 +130,21 @@ impl Cutoff {
     pub fn get(&self) -> u64 {
         self.0.load(Ordering::Relaxed)
     }
-    /// Records that index `i` violated: indices above it need not run.
+    /// Records that indices above `i` need not run.
     pub fn lower_to(&self, i: u64) {
         self.0.fetch_min(i, Ordering::Relaxed);
     }
+}
+
+/// Runs `f` on a fresh thread with a big stack and waits at most `limit`; None = it did not
+/// finish (the thread is left behind; callers exit the process right after reporting).
+pub fn with_timeout<T: Send + 'static>(limit: Duration, f: impl FnOnce() -> T + Send + 'static) -> Option<T> {
+    let (tx, rx) = std::sync::mpsc::channel();
+    std::thread::Builder::new()
+        .stack_size(1 << 30)
+        .spawn(move || {
+            let _ = tx.send(f());
+        })
+        .expect("spawn");
+    rx.recv_timeout(limit).ok()
 }
